@@ -43,13 +43,19 @@ async def queue_view(
     queue_size = app.broker.count_invocations()
 
     # Warning: This operation has overhead as we retrieve and re-queue messages
-    for _ in range(min(limit, queue_size)):
-        if invocation_id := app.broker.retrieve_invocation():
-            pending_invocations.append(app.state_backend.get_invocation(invocation_id))
-
-    for invocation in pending_invocations:
-        # Re-route the invocation back to the broker
-        app.broker.route_invocation(invocation.invocation_id)
+    popped_ids = []
+    try:
+        for _ in range(min(limit, queue_size)):
+            if invocation_id := app.broker.retrieve_invocation():
+                popped_ids.append(invocation_id)
+                pending_invocations.append(
+                    app.state_backend.get_invocation(invocation_id)
+                )
+    finally:
+        # Re-route every popped message back to the broker, also when looking one
+        # of them up fails: a monitoring page must never drop queued work
+        for invocation_id in popped_ids:
+            app.broker.route_invocation(invocation_id)
 
     return templates.TemplateResponse(
         request,
